@@ -11,7 +11,8 @@ package pagination
 //@ func (*PageNumberFinder).getPageInfoAndText(link, pageURL)
 //@   requires pnf != nil && link != nil && pageURL != nil
 //@   ensures [C16] #only-validated-urls result0 == nil || result0.URL == "" ||
-//@              (urlReqOK(linkHref) && urlReqHost(linkHref) == pageURL.Host && !hasPrefix(linkHref, "javascript:") && linkHref != "" && result0.URL == hrefURL.String())
+//@              (urlReqOK(linkHref) && urlReqHost(linkHref) == pageURL.Host && !hasPrefix(linkHref, "javascript:") && linkHref != "" && result0.URL == hrefURL.String() &&
+//@               (strings.ToLower(urlReqScheme(linkHref)) == "http" || strings.ToLower(urlReqScheme(linkHref)) == "https"))
 //@   ensures [C16] #href-is-resolved-attribute result0 == nil || linkHref == absSpec(dom.GetAttribute(link, "href"), pageURL)
 
 // C01: index safety of the page-number difference (the common prefix never exceeds either string).
